@@ -298,6 +298,12 @@ type recorder struct {
 	gated   bool
 }
 
+func (r *recorder) scanLen() int {
+	r.mu.Lock()
+	defer r.mu.Unlock()
+	return len(r.scan)
+}
+
 func (r *recorder) udpCount() int {
 	r.mu.Lock()
 	defer r.mu.Unlock()
@@ -378,6 +384,34 @@ func runScanRetry(in SInput) (ob SObs, crash string) {
 	return
 }
 
+// gapWatch notes the longest pause between two injections: the detector reports after 5 s
+// without a knock, so a pause of seconds (a stalled harness) would split the burst.
+type gapWatch struct {
+	last time.Time
+	max  time.Duration
+}
+
+func (g *gapWatch) step() {
+	now := time.Now()
+	if !g.last.IsZero() && now.Sub(g.last) > g.max {
+		g.max = now.Sub(g.last)
+	}
+	g.last = now
+}
+func (g *gapWatch) stalled() bool { return g.max > 2*time.Second }
+
+// watchdog runs f in a goroutine of its own; false = f did not return within d
+func watchdog(d time.Duration, f func()) bool {
+	done := make(chan struct{})
+	go func() { defer close(done); f() }()
+	select {
+	case <-done:
+		return true
+	case <-time.After(d):
+		return false
+	}
+}
+
 func runScan(in SInput) (ob SObs, crash string) {
 	rec := newRecorder()
 	var arp canary.ARPCache
@@ -404,104 +438,133 @@ func runScan(in SInput) (ob SObs, crash string) {
 
 	injectSem <- struct{}{}
 	t0 := time.Now()
+	var gw gapWatch
 	nudp := 0
-	func() {
+	finished := watchdog(120*time.Second, func() {
 		defer func() {
 			if r := recover(); r != nil {
 				crash = fmt.Sprintf("handler panic: %v", r)
 			}
 		}()
 		for _, p := range in.Probes {
-			done := make(chan error, 1)
-			fr := frame(p)
-			go func() {
-				defer func() {
-					if r := recover(); r != nil {
-						done <- fmt.Errorf("handler panic: %v", r)
-					}
-				}()
-				done <- v.Inject(fr)
-			}()
-			select {
-			case err := <-done:
-				if err != nil && strings.HasPrefix(err.Error(), "handler panic") {
-					crash = err.Error()
-					return
-				}
-			case <-time.After(3 * time.Second):
-				crash = "handler blocked for 3 s (knock queue full?)"
-				return
-			}
+			gw.step()
+			v.Inject(frame(p)) // ICMP/TCP: the knock is queued when this returns
 			if p.Proto == "udp" {
 				nudp++
-				if !rec.waitUDP(nudp, 3*time.Second) {
-					crash = "udp handler goroutine did not finish within 3 s"
+				if !rec.waitUDP(nudp, 10*time.Second) {
+					crash = "udp handler goroutine did not finish within 10 s"
 					return
 				}
 			}
 		}
-	}()
-	tEnd := time.Now()
+		gw.step()
+	})
+	marker := rec.scanLen()
 	<-injectSem
-	ob.BurstMs = tEnd.Sub(t0).Milliseconds()
+	ob.BurstMs = time.Since(t0).Milliseconds()
+	if !finished {
+		return ob, "a handler blocked for 120 s"
+	}
 	if crash != "" {
 		return ob, crash
 	}
-	if ob.BurstMs > 1500 {
+	if gw.stalled() {
 		return ob, slowBurst
 	}
-	ob, crash = collect(in, rec, tEnd, ob)
+	ob.Ticks, crash = collect(rec, marker, in.Ticks, "")
 	return ob, crash
 }
 
-// runLive writes the frames back to back to the peer end of the socketpair; the handlers run
-// in the receive loop and its goroutines, so the order of the UDP knocks is the scheduler's.
+// the live scenarios end with one datagram from a source of their own: when its udp event
+// arrives the receive loop has handled every frame before it
+const sentinelSrc = 200
+
 func runLive(in SInput, v *canary.VerifCanary, rec *recorder) (ob SObs, crash string) {
 	injectSem <- struct{}{}
 	t0 := time.Now()
+	var gw gapWatch
 	nudp := 0
-	for _, p := range in.Probes {
+	for _, p := range append(append([]Probe{}, in.Probes...), Probe{Src: sentinelSrc, Proto: "udp", Port: 4999}) {
 		if p.Proto == "tcp" {
 			hx.Fatal("live scenarios carry no TCP (the transmit path needs an AF_PACKET socket)")
 		}
 		if p.Proto == "udp" {
 			nudp++
 		}
+		gw.step()
 		if _, err := syscall.Write(v.PeerFd, frame(p)); err != nil {
 			hx.Fatal("write to the socketpair: %v", err)
 		}
 	}
-	ok := rec.waitUDP(nudp, 3*time.Second)
-	time.Sleep(30 * time.Millisecond) // ICMP frames are handled synchronously by the loop
-	tEnd := time.Now()
+	ok := rec.waitUDP(nudp, 10*time.Second)
+	gw.step()
+	marker := rec.scanLen()
 	<-injectSem
-	ob.BurstMs = tEnd.Sub(t0).Milliseconds()
+	ob.BurstMs = time.Since(t0).Milliseconds()
 	if !ok {
-		return ob, "receive loop did not handle all datagrams within 3 s"
+		return ob, "receive loop did not handle all datagrams within 10 s"
 	}
-	if ob.BurstMs > 1500 {
+	if gw.stalled() {
 		return ob, slowBurst
 	}
-	return collect(in, rec, tEnd, ob)
+	ob.Ticks, crash = collect(rec, marker, in.Ticks, srcIP(sentinelSrc).String())
+	return ob, crash
 }
 
-func collect(in SInput, rec *recorder, tEnd time.Time, ob SObs) (SObs, string) {
-	time.Sleep(time.Until(tEnd.Add(time.Duration(in.Ticks)*tickMs*time.Millisecond + tickMs/2*time.Millisecond)))
+const (
+	quietAfter = 7500 * time.Millisecond // > one 5 s period: no further report round can follow
+	roundGap   = 2500 * time.Millisecond // events of one round arrive back to back
+)
+
+// collect waits until no portscan event has arrived for quietAfter, then splits the events
+// recorded after `marker` into report rounds (ticks of the detector) by the pauses between
+// them.  Events of the source `skip` are left out.
+func collect(rec *recorder, marker, rounds int, skip string) ([][]Ev, string) {
+	// quiet time is counted in steps of 50 ms; a step that took much longer (the process was
+	// stalled, so was the detector's timer) counts as one step only
+	start := time.Now()
+	seen := rec.scanLen()
+	var quiet time.Duration
+	for quiet < quietAfter {
+		t := time.Now()
+		time.Sleep(50 * time.Millisecond)
+		d := time.Since(t)
+		if d > 100*time.Millisecond {
+			d = 100 * time.Millisecond
+		}
+		quiet += d
+		if n := rec.scanLen(); n != seen {
+			seen, quiet = n, 0
+		}
+		if time.Since(start) > 120*time.Second {
+			return nil, "portscan events kept arriving for 120 s"
+		}
+	}
 	rec.mu.Lock()
 	defer rec.mu.Unlock()
-	ob.Ticks = make([][]Ev, in.Ticks)
-	for i := range ob.Ticks {
-		ob.Ticks[i] = []Ev{}
+	out := make([][]Ev, rounds)
+	for i := range out {
+		out[i] = []Ev{}
 	}
-	for _, e := range rec.scan {
-		ms := e.at.Sub(tEnd).Milliseconds()
-		k := int((ms + tickMs/2) / tickMs) // [2.5,7.5) s -> 1, ...
-		if ms < 0 || k < 1 || k > in.Ticks {
-			return ob, fmt.Sprintf("portscan event %d ms after the end of the burst: outside every expected tick", ms)
+	if marker > 0 {
+		return out, fmt.Sprintf("%d portscan event(s) before the end of the burst", marker)
+	}
+	k := -1
+	var prev time.Time
+	for _, e := range rec.scan[marker:] {
+		if k < 0 || e.at.Sub(prev) > roundGap {
+			k++
 		}
-		ob.Ticks[k-1] = append(ob.Ticks[k-1], e.ev)
+		prev = e.at
+		if k >= rounds {
+			k = rounds - 1 // further rounds are added to the last one (their events count as repeated/late)
+		}
+		if skip != "" && e.ev.SIP == skip {
+			continue
+		}
+		out[k] = append(out[k], e.ev)
 	}
-	return ob, ""
+	return out, ""
 }
 
 func ipN(s string) uint64 {
